@@ -1082,6 +1082,11 @@ def check_C15(rep, fl):
     # every handle feeds the same lookup buffer: a batch fills up across handles and nothing is lost with a handle
     check_handle_sharing(rep, fl, fields=("get_buf", "policy", "metrics"))
     check_batch_applied(rep, fl)
+    # "the key's estimate reflects those lookups": each applied key is recorded (doorkeeper first, then the sketch)
+    # and estimate() reads both back
+    import props_sketch
+    import props_store as _ps
+    _ps.keep_sites(rep, fl, props_sketch.check_tinylfu, ("increment", "estimate"))
     # "accounted exactly once as kept or dropped in the metrics": the counters themselves add and read correctly
     import props_store
     props_store.keep_sites(rep, fl, check_metrics_core, ("add", "Metrics::add forwards", "get sums stripes", "get_gets_dropped", "get_gets_kept", "installed once"))
